@@ -1295,8 +1295,15 @@ class Interp:
                         isinstance(t, (ast.Tuple, ast.List)) and not any(isinstance(x, ast.Starred) for x in t.elts) and len(t.elts) != len(r.value) - 1 for t in s.targets):
                     out.append(("raise", ("exc", "ValueError"), s2))   # wrong number of values to unpack
                     continue
+                value = r.value
+                if len(s.targets) > 1 and getattr(d, "heap", False) and isinstance(value, tuple) and value[:1] in (("tuple",), ("kwdict",), ("set",)) \
+                        and isinstance(s.value, (ast.List, ast.Dict, ast.Set, ast.ListComp, ast.DictComp, ast.SetComp, ast.Call)):
+                    # a = b = []: one new object with two names
+                    n_ = s2.get("ev.heap", 0)
+                    s2 = s2.set("ev.heap", n_ + 1).set(heap_key(("h", n_)), value)
+                    value = ("h", n_)
                 for t in s.targets:
-                    s2 = self.assign(t, r.value, s2, fr)
+                    s2 = self.assign(t, value, s2, fr)
                 out.append(("next", None, s2))
             return self._dd(out)
         if isinstance(s, ast.AnnAssign):
@@ -1646,6 +1653,8 @@ class Interp:
                         remaining = False
                         break
                 if remaining:
+                    if _TRACE_EXC and _TRACE_EXC in repr(payload):
+                        print("UNCAUGHT-BY", fr.name, "line", s.lineno, [norm(h.type) if h.type is not None else None for h in s.handlers], payload)
                     results.append((kind, payload, s2))
             elif kind == "next" and s.orelse:
                 results.extend(self.exec_block(s.orelse, [s2], fr))
@@ -1913,6 +1922,9 @@ class Interp:
                 entry = entry.set("ev.cells", cell_n + 1)
                 for n_ in captured:
                     fr.cellrefs[n_] = f"cell.{cell_n}.{n_}"
+                if fr.selfname is not None and fr.selfname in captured:
+                    # `self` is not a variable of the state (it is the frame's object): the closures that use it find it in its cell
+                    entry = entry.set(fr.cellrefs[fr.selfname], fr.instance if fr.instance is not None else ("self",))
         # a closure whose defining frame has returned: its free variables come from the captured environment;
         # ("ref", key) entries alias a list / dict that still lives in a caller's variable
         env_locals = []
